@@ -411,6 +411,75 @@ func vPersistCompare(c *vCase, path string, want map[string]any, what string) bo
 	return true
 }
 
+// vCheckTriggerRestore: a fresh process reads a copy of the file and prepares a 16-channel source; every channel
+// must come up with the settings of the (last) saved group that lists it, the others with everything disabled.
+func vCheckTriggerRestore(c *vCase, cfgPath string, saved []FullTriggerState) bool {
+	b, err := os.ReadFile(cfgPath)
+	if err != nil {
+		return true
+	}
+	cp := filepath.Join(c.Dir, "restore.yaml")
+	os.MkdirAll(c.Dir, 0o755)
+	os.WriteFile(cp, b, 0o644)
+	const n = 16
+	cmd := exec.Command(os.Args[0], "-test.run", "^TestVerif$")
+	cmd.Env = append(os.Environ(), "VERIF_CHILD=restore", "VERIF_CFG="+cp, fmt.Sprintf("VERIF_NCHAN=%d", n), "VERIF_PROP=C16", "HOME="+c.Dir)
+	out, err := cmd.CombinedOutput()
+	i := strings.Index(string(out), "RESTORED ")
+	if err != nil || i < 0 {
+		c.Inconclusive("child", "restore child failed: %v %s", err, vTrim(string(out), 600))
+		return false
+	}
+	line := string(out)[i+len("RESTORED "):]
+	if j := strings.Index(line, "\n"); j >= 0 {
+		line = line[:j]
+	}
+	var got []TriggerState
+	if err := json.Unmarshal([]byte(line), &got); err != nil || len(got) != n {
+		c.Inconclusive("child", "cannot parse the restore child's output: %v", err)
+		return false
+	}
+	type core struct {
+		AutoTrigger                          bool
+		AutoDelay                            time.Duration
+		AutoVetoRange                        RawType
+		LevelTrigger, LevelRising            bool
+		LevelLevel                           RawType
+		EdgeTrigger, EdgeRising, EdgeFalling bool
+		EdgeLevel                            int32
+		EdgeMulti                            bool
+	}
+	pick := func(t TriggerState) core {
+		return core{t.AutoTrigger, t.AutoDelay, t.AutoVetoRange, t.LevelTrigger, t.LevelRising, t.LevelLevel, t.EdgeTrigger, t.EdgeRising, t.EdgeFalling, t.EdgeLevel, t.EdgeMulti}
+	}
+	for ch := 0; ch < n; ch++ {
+		var exp *TriggerState
+		for gi := range saved {
+			for _, ci := range saved[gi].ChannelIndices {
+				if ci == ch {
+					exp = &saved[gi].TriggerState
+				}
+			}
+		}
+		if exp == nil {
+			if got[ch].AutoTrigger || got[ch].EdgeTrigger || got[ch].LevelTrigger || got[ch].EdgeMulti {
+				c.Violate("c16:restore-trigger-unlisted", "channel %d is in no saved trigger group but came up with a trigger enabled: %+v", ch, pick(got[ch]))
+				return false
+			}
+			continue
+		}
+		w := pick(*exp)
+		w.EdgeMulti = false // documented: not restored
+		if pick(got[ch]) != w {
+			c.Violate("c16:restore-trigger-channel", "channel %d came up with trigger settings %+v after a restart, the saved group for it says %+v (saved groups: %d)", ch, pick(got[ch]), w, len(saved))
+			return false
+		}
+		c.Cov("trigger_channels_restored", 1)
+	}
+	c.Cov("trigger_restores_in_fresh_process", 1)
+	return true
+}
+
 var vPersistTags = []string{"TRIANGLE", "SIMPULSE", "LANCERO", "ABACO", "ROACH", "STATUS", "WRITING", "TRIGGER", "TESMAPFILE"}
 
 func vRunPersist(c *vCase) {
@@ -470,12 +539,16 @@ func vRunPersist(c *vCase) {
 			break // report what is wrong with the file below
 		}
 	}
+	if tr, ok := want["TRIGGER"].([]FullTriggerState); ok && vPersistCompareQuiet(e.cfgPath, want) {
+		if !vCheckTriggerRestore(c, e.cfgPath, tr) {
+			return
+		}
+	}
 	if vPersistCompare(c, e.cfgPath, want, fmt.Sprintf("%.1f s after a history that ended with %s (save delay 25 ms)", time.Since(t0).Seconds(), fa)) {
 		c.Cov("persist_histories", 1)
 		c.Nontrivial()
 	}
 }
-
 
 // vPersistCompareQuiet: does the file already hold the wanted values? (no verdict; used only to wait for the save)
 func vPersistCompareQuiet(p string, want map[string]any) bool {
@@ -496,6 +569,55 @@ func vVersionValues(ver int) map[string]any {
 		"WRITING":    &WritingState{BasePath: fmt.Sprintf("/data/version%d", ver)},
 		"TESMAPFILE": fmt.Sprintf("/maps/version%d.cfg", ver),
 	}
+}
+
+// vRestoreChild: a fresh process reads the configuration file the way the next run does and prepares a source;
+// it prints the trigger settings every channel ended up with.
+func vRestoreChild() {
+	PubRecordsChan = make(chan []*DataRecord, 16)
+	PubSummariesChan = make(chan []*DataRecord, 16)
+	viper.Reset()
+	viper.SetConfigFile(os.Getenv("VERIF_CFG"))
+	if err := viper.ReadInConfig(); err != nil {
+		fmt.Println("CHILD-ERROR", err)
+		os.Exit(3)
+	}
+	n := 16
+	fmt.Sscan(os.Getenv("VERIF_NCHAN"), &n)
+	ds := vNewAnySource(n, 10*time.Microsecond)
+	if err := ds.PrepareChannels(); err != nil {
+		fmt.Println("CHILD-ERROR", err)
+		os.Exit(3)
+	}
+	if err := ds.PrepareRun(8, 32); err != nil {
+		fmt.Println("CHILD-ERROR", err)
+		os.Exit(3)
+	}
+	states := make([]TriggerState, n)
+	for i, dsp := range ds.processors {
+		states[i] = dsp.TriggerState
+	}
+	b, _ := json.Marshal(states)
+	fmt.Println("RESTORED " + string(b))
+	os.Exit(0)
+}
+
+// vResaveChild: the next run after a killed save: read the configuration, change every topic, save.
+func vResaveChild() {
+	home, _ := os.UserHomeDir()
+	cfg := filepath.Join(home, ".dastard", "config.yaml")
+	viper.Reset()
+	viper.SetConfigFile(cfg)
+	if err := viper.ReadInConfig(); err != nil {
+		fmt.Println("CHILD-ERROR", err)
+		os.Exit(3)
+	}
+	last := map[string]interface{}{}
+	for k, v := range vVersionValues(3) {
+		last[k] = v
+	}
+	saveState(last)
+	os.Exit(0)
 }
 
 // vCrashChild runs in the re-executed test binary.
@@ -605,6 +727,27 @@ func vCheckAfterKill(c *vCase, dir, point string, completed bool) {
 	} else {
 		c.Cov("survived_as_new_version", 1)
 	}
+	// the next run: it must be able to save again, whatever the killed save left lying around
+	home := filepath.Dir(dir)
+	cmd := exec.Command(os.Args[0], "-test.run", "^TestVerif$")
+	cmd.Env = append(os.Environ(), "VERIF_CHILD=resave", "HOME="+home, "VERIF_PROP=C16")
+	if out, err := cmd.CombinedOutput(); err != nil {
+		c.Violate("c16:next-run-cannot-read-config", "killed at %s: the next run could not read the configuration and save: %v %s (directory %v)", point, err, vTrim(string(out), 400), names)
+		return
+	}
+	probe3 := &vCase{}
+	probe3.res.Kind = "held"
+	if !vPersistCompare(probe3, cfg, vVersionValues(3), "") {
+		ents2, _ := os.ReadDir(dir)
+		var names2 []string
+		for _, en := range ents2 {
+			names2 = append(names2, en.Name())
+		}
+		c.Violate("c16:save-after-crash-lost", "killed at %s, then the next run changed every persistent topic and saved: the configuration file does not hold the new values (%s); directory after the kill %v, now %v",
+			point, probe3.res.Detail, names, names2)
+		return
+	}
+	c.Cov("saves_after_a_killed_save", 1)
 	c.Nontrivial()
 }
 
@@ -728,7 +871,7 @@ func init() {
 			Assumptions: []string{"libzmq delivers in order on one connection and loses nothing once the subscription is established (receive high-water mark 0)", "a process kill, not a power loss: data written before the kill are in the page cache",
 				"edge-multi settings are documented as not restored", "NEWDASTARD is an announcement the code documents as not stored"},
 			Guards: map[string]map[string]int{
-				"quick":    {"replays": 60, "replayed_messages": 1000, "republished_values": 200, "persist_histories": 60, "persist_histories_ending_with_unsaved_topic": 15, "restored_topics_compared": 300, "kills_at_save.begin": 8, "kills_at_save.tmpWritten": 8, "kills_at_save.bakRemoved": 8, "kills_at_save.mainMoved": 8, "kills_at_save.done": 8, "survived_as_old_version": 10, "survived_as_new_version": 10, "syscall_kills": 40, "distinct:syscall_kill_point": 8},
+				"quick":    {"replays": 60, "replayed_messages": 1000, "republished_values": 200, "persist_histories": 60, "persist_histories_ending_with_unsaved_topic": 15, "restored_topics_compared": 300, "kills_at_save.begin": 8, "kills_at_save.tmpWritten": 8, "kills_at_save.bakRemoved": 8, "kills_at_save.mainMoved": 8, "kills_at_save.done": 8, "survived_as_old_version": 10, "survived_as_new_version": 10, "syscall_kills": 40, "saves_after_a_killed_save": 60, "trigger_restores_in_fresh_process": 20, "distinct:syscall_kill_point": 8},
 				"thorough": {"replays": 800, "persist_histories": 800},
 			}},
 	})
